@@ -4,7 +4,7 @@ import os, vlib
 
 def run(ctx):
     q = ctx.tier == "quick"
-    ctx.rule = ("Per pool (14 hand-picked or 8 grammar-generated regexps x 24 hosts) Go's regexp evaluates each rule alone "
+    ctx.rule = ("Per pool (19 hand-picked or 8 grammar-generated regexps x 24-28 hosts) Go's regexp evaluates each rule alone "
                 "into table M; TLC enumerates marked lists (length<=3) and computes Match = union(includes) minus excludes; "
                 "each list runs through the real ParseRegexpListItem/NewRegexpMatcherFromList/Match/Inverse for every host. "
                 "Non-trivial = list of >1 rules that matches at least one host.")
